@@ -12,8 +12,8 @@ import (
 
 func init() {
 	register(&PropertyDef{
-		ID:    "C01",
-		Title: "Sealed group messages open to the original payload or are rejected",
+		ID:          "C01",
+		Title:       "Sealed group messages open to the original payload or are rejected",
 		Explanation: "Decides, for all inputs at once, structural necessary conditions of authenticated opening in pkg/secretstore: (D1) every secretbox.Open behind the three open entry points (headers, payload, push envelope) has its ok result tested, the failing side reaches only error returns and no success return bypasses the accepting side; (D2) verify-before-deliver: in the function that opens the payload box, every success return is dominated either by the accepting side of Verify(plaintext, headers.Sig) on the key decoded from headers.DevicePk, or by the 'already decrypted' side of the flag; that flag is only ever stored as constant true at construction and as constant false on the hit side of the by-CID lookup; (D3) sealer/opener binding: nonce and header counter are stored counter+1, the DevicePk header is the public half of the key that signs, the signature is over the clear payload given to secretbox.Seal, and the opener's nonce comes from the opened headers' counter; (D4) group separation: every call of the chain KDF passes info derived from the group public key (never nil/constant); (D5) the message key is stored under the message CID (which switches the signature check off for later opens) only after a call that opened and verified the payload has succeeded, on every call path. Not decided: that NaCl/Ed25519 reject every altered bit, payload equality for all sizes, emission by the message store.",
 		Trusted:     []string{"nacl/secretbox, Ed25519 (libp2p crypto), HKDF", "go/ssa (x/tools v0.29.0)"},
 		Assumptions: []string{"headers passed to OpenEnvelopePayload are the ones returned by OpenEnvelopeHeaders (checked at the message-store call site in C08/C14 scope)"},
